@@ -120,8 +120,12 @@ impl ColumnConverter {
     ) -> Result<ColumnValues, FlowOperatorError> {
         let mut bytes = Vec::new();
         let mut ranges = Vec::with_capacity(values.len());
+        // NULL rows read as "" through `get_str_at`; mark them in a null bitmap so that
+        // COUNT <field> can tell a NULL from an empty string.
+        let mut null_bits = vec![0u8; (values.len() + 7) / 8];
+        let mut has_null = false;
 
-        for value in values {
+        for (idx, value) in values.iter().enumerate() {
             let str_repr = match value {
                 ScalarValue::Utf8(s) => s.as_str(),
                 ScalarValue::Int64(i) => {
@@ -153,7 +157,11 @@ impl ColumnConverter {
                     continue;
                 }
                 ScalarValue::Binary(_) => "",
-                ScalarValue::Null => "",
+                ScalarValue::Null => {
+                    has_null = true;
+                    null_bits[idx / 8] |= 1 << (idx % 8);
+                    ""
+                }
             };
 
             if !str_repr.is_empty() {
@@ -165,7 +173,12 @@ impl ColumnConverter {
             }
         }
 
+        let nulls = has_null.then(|| {
+            let start = bytes.len();
+            bytes.extend_from_slice(&null_bits);
+            (start, null_bits.len())
+        });
         let block = Arc::new(DecompressedBlock::from_bytes(bytes));
-        Ok(ColumnValues::new(block, ranges))
+        Ok(ColumnValues::new_with_nulls(block, ranges, nulls))
     }
 }
